@@ -1,6 +1,7 @@
 package main
 
 import (
+	"os"
 	"fmt"
 	"go/token"
 	"sort"
@@ -422,6 +423,98 @@ func c08Stores(c *Ctx, p *Prog, m *Model) {
 				case ssa.CallInstruction:
 					if isBuiltinCall(x, "delete") || isBuiltinCall(x, "clear") {
 						probs = append(probs, fmt.Sprintf("delete/clear at %s", p.Pos(instrPos(x))))
+					}
+					if call, isCall := x.(*ssa.Call); isCall && isBuiltinCall(x, "append") {
+						// append writes into the spare capacity of its first argument: a list held by a logger, handler or
+						// group (directly, or handed in by the caller on the print path) must be copied first
+						sharedField := func(v ssa.Value) string {
+							for _, sv := range sources(v) {
+								if base, _, f, ok := fieldLoad(sv); ok {
+									if tn := typeName(base.Type()); tn != "PrintCtx" {
+										if _, isAlloc := stripNoIface(base).(*ssa.Alloc); !isAlloc {
+											return tn + "." + nm(f)
+										}
+									}
+								}
+							}
+							return ""
+						}
+						// the values the first argument can hold: itself, and for a variable captured by a closure or kept
+						// in a local cell, what is stored into that cell (in the enclosing function)
+						type cand struct {
+							v  ssa.Value
+							in *ssa.Function
+						}
+						cands := []cand{{call.Common().Args[0], fn}}
+						for _, sv := range sources(call.Common().Args[0]) {
+							u, isLoad := sv.(*ssa.UnOp)
+							if !isLoad || u.Op != token.MUL {
+								continue
+							}
+							var cell *ssa.Alloc
+							owner := fn
+							switch x := u.X.(type) {
+							case *ssa.Alloc:
+								cell = x
+							case *ssa.FreeVar:
+								if par := fn.Parent(); par != nil {
+									for _, pb := range par.Blocks {
+										for _, pin := range pb.Instrs {
+											if mc, ok := pin.(*ssa.MakeClosure); ok && mc.Fn == ssa.Value(fn) {
+												for i, fv := range fn.FreeVars {
+													if fv == x && i < len(mc.Bindings) {
+														cell, _ = mc.Bindings[i].(*ssa.Alloc)
+														owner = par
+													}
+												}
+											}
+										}
+									}
+								}
+							}
+							if cell == nil {
+								continue
+							}
+							for _, ref := range *cell.Referrers() {
+								if sv2, ok := ref.(*ssa.Store); ok && sv2.Addr == ssa.Value(cell) {
+									cands = append(cands, cand{sv2.Val, owner})
+								}
+							}
+						}
+						bad := ""
+						if os.Getenv("LOGGCHECK_DEBUG") != "" {
+							fmt.Fprintf(os.Stderr, "APPEND in %s: cands=%d\n", shortName(fn), len(cands))
+							for _, cd := range cands {
+								fmt.Fprintf(os.Stderr, "   cand %v in %s callers=%d\n", cd.v, shortName(cd.in), len(p.staticCallers()[cd.in]))
+							}
+						}
+						for _, cd := range cands {
+							if sf := sharedField(cd.v); sf != "" {
+								bad = sf
+							}
+							for _, sv := range sources(cd.v) {
+								prm, isPrm := sv.(*ssa.Parameter)
+								if !isPrm {
+									continue
+								}
+								idx := -1
+								for i, q := range cd.in.Params {
+									if q == prm {
+										idx = i
+									}
+								}
+								for _, site := range p.staticCallers()[cd.in] {
+									if idx >= 0 && idx < len(site.Common().Args) && tree[site.Parent()] {
+										if sf := sharedField(site.Common().Args[idx]); sf != "" {
+											bad = sf + " (handed in by " + shortName(site.Parent()) + ")"
+										}
+									}
+								}
+							}
+						}
+						if bad != "" {
+							probs = append(probs, fmt.Sprintf("appends into the spare capacity of the shared list %s at %s", bad, p.Pos(instrPos(x))))
+						}
 					}
 					if isBuiltinCall(x, "copy") {
 						ot := &originTracer{p: p, m: m, seen: map[string]bool{}}
